@@ -288,6 +288,33 @@ func (p *Path) Decided(key string) (bool, bool) {
 	return false, false
 }
 
+// errorTextOf: a is the text of an error value, v.Error() through the interface or through a method of a concrete error
+// type (corrupt.Error()); returns that error value.
+func errorTextOf(a AV) (AV, bool) {
+	x, ok := stripConvAll(a).(*Expr)
+	if !ok || x.Op != "call" || len(x.Args) < 1 {
+		return nil, false
+	}
+	name := x.Name
+	if i := strings.Index(name, "@"); i >= 0 {
+		name = name[:i]
+	}
+	if name == "invoke error.Error" || strings.HasSuffix(name, ").Error") || strings.HasSuffix(name, ".Error") && !strings.Contains(name, "invoke ") {
+		return x.Args[0], true
+	}
+	return nil, false
+}
+
+// inlinedWriteError: the event is c.writeCloseCtx(ctx, code, err.Error()) / c.writeClose(code, err.Error()): writeError without the
+// function around it.
+func inlinedWriteError(e *Event) bool {
+	if e.Kind != "call" || (e.Callee != "Conn.writeCloseCtx" && e.Callee != "Conn.writeClose") || len(e.Args) < 3 {
+		return false
+	}
+	_, ok := errorTextOf(e.Args[len(e.Args)-1])
+	return ok
+}
+
 // Calls returns the call events (executed, not merely deferred) to callee.
 func (p *Path) Calls(callee string) []*Event {
 	var out []*Event
@@ -306,10 +333,10 @@ func (p *Path) Calls(callee string) []*Event {
 		}
 		// the inlined spelling of the same: c.writeCloseCtx(ctx, code, err.Error())
 		if callee == "Conn.writeError" && e.Kind == "call" && e.Callee == "Conn.writeCloseCtx" && len(e.Args) == 4 {
-			if x, ok := stripConvAll(e.Args[3]).(*Expr); ok && x.Op == "call" && strings.HasPrefix(x.Name, "invoke error.Error@") && len(x.Args) >= 1 {
+			if ev, ok := errorTextOf(e.Args[3]); ok {
 				ne := *e
 				ne.Callee = "Conn.writeError"
-				ne.Args = []AV{e.Args[0], e.Args[2], x.Args[0]}
+				ne.Args = []AV{e.Args[0], e.Args[2], ev}
 				ne.Val = e.Args[1]
 				out = append(out, &ne)
 			}
